@@ -5,6 +5,7 @@
   `Sketch.decodeStore (.pg s)`).
 -/
 import DDS.Proofs.GenPagDefs
+import DDS.Proofs.GenPagBase
 import DDS.Proofs.GenDenseEncode
 import DDS.Proofs.RoundTrip
 import DDS.Proofs.GenStoreDecode
@@ -494,5 +495,213 @@ theorem DecodeAndMergeWith_deltas (cf : PStore → Nat) (hcompact : CompactSpec 
         obtain ⟨st', rest'⟩ := q
         rintro ⟨s', cap', st'', h1, h2⟩
         rw [h1]; exact ⟨s', cap', st'', rfl, h2⟩
+
+/-! #### a disagreement on malformed input: an announced bin count `≥ 2^63`
+
+  `remaining := int(numBins)` is negative, so is `batchSize`, nothing is read, `remaining -= batchSize` is 0 and
+  the Go function returns `nil` having consumed only the count; the model (and the generic decoder used by the
+  other stores) tries to read the bins and reports `io.EOF`.  Kernel-checked on the empty store. -/
+
+def isErrEof : Option (Except SkErr (Store × Bytes)) → Bool
+  | some (.error .eof) => true
+  | _ => false
+
+def isOkNilEmpty : Res (GP × List (BitVec 8) × GoErr) → Bool
+  | .ok (g, [], GoErr.nil) => g.buffer.isEmpty && g.pages.isEmpty
+  | _ => false
+
+/-- the uvarint `2^63` -/
+def hugeCount : List (BitVec 8) := List.replicate 9 128#8
+
+theorem deltas_negative_count_model :
+    isErrEof (Sketch.decodeStore (.pg PStore.new) Consts.binEncodingIndexDeltas (nb hugeCount)) = true := by
+  decide +kernel
+
+theorem deltas_negative_count_gen :
+    isOkNilEmpty (Gen.Paginated.BufferedPaginatedStore.DecodeAndMergeWith 20 (fun _ n => n)
+      (fun s b _ => .ok (s, b, GoErr.nil)) Gen.Paginated.NewBufferedPaginatedStore hugeCount
+      BinEncodingIndexDeltas) = true := by
+  decide +kernel
+
+/-! #### layout `BinEncodingContiguousCounts` -/
+
+/-- the counts the model decodes, until the items or the parsable input run out -/
+def ccCounts : Nat → Bytes → List F64
+  | 0, _ => []
+  | n + 1, bs =>
+    match decVarfloat64 bs with
+    | .error _ => []
+    | .ok (c, bs1) => c :: ccCounts n bs1
+
+/-- a finite non-negative weight -/
+def NonnegFin (c : F64) : Prop := ∃ w : Rat, c = .fin w ∧ 0 ≤ w
+
+theorem cdc_idx_page (pg : Array Rat) (line : Nat) (h : line < pg.size) :
+    GoSem.idx pg.toList (line : Int) = some (pg.getD line 0) := by
+  unfold GoSem.idx
+  rw [if_neg (by omega), Int.toNat_natCast]
+  simp [Array.getD, h]
+
+theorem cdc_set_page (pg : Array Rat) (line : Nat) (v : Rat) (h : line < pg.size) :
+    GoSem.set pg.toList (line : Int) v = some (pg.setIfInBounds line v).toList := by
+  unfold GoSem.set
+  rw [if_neg (by rw [Array.length_toList]; omega), Int.toNat_natCast]
+  simp
+
+theorem cdc_set_pages (s : PStore) (k : Nat) (pg : Array Rat) (h : k < s.pages.size) :
+    GoSem.set (pagesL s) (k : Int) pg.toList
+      = some (pagesL { s with pages := s.pages.setIfInBounds k pg }) := by
+  unfold GoSem.set pagesL
+  rw [if_neg (by rw [List.length_map, Array.length_toList]; omega), Int.toNat_natCast]
+  simp [List.map_set]
+
+theorem content_of_wt_add (s s' : PStore) (h : PStore.Inv s) (h' : PStore.Inv s') (i : Int) (w : Rat) (hw : 0 ≤ w)
+    (hwt : ∀ j, PStore.wt s' j = PStore.wt s j + if j = i then w else 0) :
+    content s' = (content s).add i w := by
+  apply PStore.content_eq_of_lookup s' h' _ (Content.wf_add _ i w (PStore.content_wf s h) hw)
+  intro j; rw [hwt, Content.lookup_add, PStore.lookup_content s h]
+
+theorem pg_addF (st : PStore) (h : PStore.Inv st) (i : Int) (hi : Idx32 i) (w : Rat) (hw : 0 ≤ w) :
+    ∃ st1, Sketch.addF (.pg st) i (.fin w) = some (.pg st1) ∧ PStore.Inv st1 ∧
+      content st1 = (content st).add i w := by
+  obtain ⟨st1, h1, h2, h3⟩ := DDS.Props.C04Pag.add_content st h i hi w hw true
+  exact ⟨st1, by simp only [Sketch.addF, Store.addWithCount, h1, Option.map_some], h2, h3⟩
+
+theorem cdc_toInt64 (i : Int) (h : DDS.I64 i) : (BitVec.ofInt 64 i).toInt = i :=
+  DDS.GenStoreDecode.toInt_ofInt_I64 i h
+
+/-- the result of `addAtPage`, explicitly -/
+def addAtE (s : PStore) (k ln : Nat) (w : Rat) : PStore :=
+  { s with pages := s.pages.setIfInBounds k ((s.pages.getD k #[]).setIfInBounds ln ((s.pages.getD k #[]).getD ln 0 + w)) }
+
+/-- the lines of one page (`loop4`): while the line stays on the page, one count per line -/
+theorem dec_loop4 (numBins : BitVec 64) (stride : Int) (hstride : DDS.I64 stride) (cap : Int) :
+    ∀ (r fuel : Nat) (b : List (BitVec 8)) (s : PStore) (k : Nat) (line : Int) (idx : Int) (i : BitVec 64)
+      (st : PStore),
+    numBins.toNat = i.toNat + r → r + 10 ≤ fuel →
+    PStore.Inv s → PStore.Inv st → content st = content s →
+    k < s.pages.size → (s.pages.getD k #[]).size = 32 →
+    idx = (s.minPageIndex + (k : Int)) * 32 + line →
+    (∀ j : Nat, j < r → Idx32 (idx + (j : Int) * stride)) →
+    (∀ c ∈ ccCounts r (nb b), NonnegFin c) →
+    (Sketch.decItems (Sketch.ccItem stride) r (.pg st) idx (nb b) = some (.error .eof) ∧
+      ∃ g' b', Gen.Paginated.BufferedPaginatedStore.DecodeAndMergeWith.loop4 32 numBins (k : Int)
+        (BitVec.ofInt 64 stride) fuel b (s.pages.getD k #[]).toList (toGen s cap) line (BitVec.ofInt 64 idx) i
+          = .ret (g', b', GoErr.eof)) ∨
+    (∃ (r' : Nat) (s1 st1 : PStore) (idx1 : Int) (b1 : List (BitVec 8)) (page1 : List Rat) (line1 : Int)
+        (i1 : BitVec 64),
+      Gen.Paginated.BufferedPaginatedStore.DecodeAndMergeWith.loop4 32 numBins (k : Int)
+        (BitVec.ofInt 64 stride) fuel b (s.pages.getD k #[]).toList (toGen s cap) line (BitVec.ofInt 64 idx) i
+          = .done (b1, page1, toGen s1 cap, line1, BitVec.ofInt 64 idx1, i1) ∧
+      numBins.toNat = i1.toNat + r' ∧ r' ≤ r ∧ ((0 ≤ line ∧ line < 32 ∧ 0 < r) → r' < r) ∧
+      Sketch.decItems (Sketch.ccItem stride) r (.pg st) idx (nb b)
+        = Sketch.decItems (Sketch.ccItem stride) r' (.pg st1) idx1 (nb b1) ∧
+      PStore.Inv s1 ∧ PStore.Inv st1 ∧ content st1 = content s1 ∧
+      (∀ j : Nat, j < r' → Idx32 (idx1 + (j : Int) * stride)) ∧
+      (∀ c ∈ ccCounts r' (nb b1), NonnegFin c)) := by
+  intro r
+  induction r with
+  | zero =>
+    intro fuel b s k line idx i st hn hf hI hIt hc hk hsz hidx hrange hcnt
+    obtain ⟨fuel, rfl⟩ : ∃ f, fuel = f + 1 := ⟨fuel - 1, by omega⟩
+    have hu := DDS.GenStoreDecode.ult_of_eq i numBins (by omega)
+    right
+    refine ⟨0, s, st, idx, b, (s.pages.getD k #[]).toList, line, i, ?_, hn, Nat.le_refl _, fun h => absurd h.2.2 (by omega), rfl, hI, hIt, hc,
+      hrange, hcnt⟩
+    simp only [Gen.Paginated.BufferedPaginatedStore.DecodeAndMergeWith.loop4, hu, Bool.and_false,
+      Bool.false_eq_true, if_false]
+  | succ r ih =>
+    intro fuel b s k line idx i st hn hf hI hIt hc hk hsz hidx hrange hcnt
+    obtain ⟨fuel, rfl⟩ : ∃ f, fuel = f + 1 := ⟨fuel - 1, by omega⟩
+    have hf9 : 9 ≤ fuel := by omega
+    have hu := DDS.GenStoreDecode.ult_of_lt i numBins (by omega)
+    by_cases hline : 0 ≤ line ∧ line < 32
+    · obtain ⟨hl0, hl1⟩ := hline
+      have hcond : ((decide ((0 : Int) ≤ line) && decide (line < 32)) && BitVec.ult i numBins) = true := by
+        simp [hl0, hl1, hu]
+      cases hF : decVarfloat64 (nb b) with
+      | error e1 =>
+        left
+        refine ⟨?_, toGen s cap, b, ?_⟩
+        · exact decItems_err r _ idx (nb b) _
+            (Sketch.ccItem_of_err stride _ idx (nb b) _ (Sketch.sk_liftDec_of_error _ _ hF))
+        · simp only [Gen.Paginated.BufferedPaginatedStore.DecodeAndMergeWith.loop4, hcond, if_true,
+            F_err fuel hf9 b e1 hF, Res.bindL_ok, GoSem.ratOfF64, optL_some, heof]
+      | ok p1 =>
+        obtain ⟨c, r1⟩ := p1
+        obtain ⟨b1, hF1, hb1, _⟩ := F_ok fuel hf9 b c r1 hF
+        have hcc : ccCounts (r + 1) (nb b) = c :: ccCounts r (nb b1) := by
+          simp only [ccCounts, hF, hb1]
+        rw [hcc] at hcnt
+        obtain ⟨w, rfl, hw⟩ := hcnt c (List.mem_cons_self ..)
+        have hx : Idx32 idx := by
+          have := hrange 0 (by omega); simpa using this
+        -- the model
+        obtain ⟨st1, ha1, hIt1, hc1⟩ := pg_addF st hIt idx hx w hw
+        have hit := Sketch.ccItem_of_ok stride (.pg st) idx (nb b) r1 (.fin w) (Sketch.sk_liftDec_of_ok _ _ hF)
+        rw [ha1, Option.map_some] at hit
+        have hm := decItems_ok r (.pg st) idx (nb b) (.pg st1) (idx + stride) r1 hit
+        -- the generated store
+        have hL := hI.pageLen_eq
+        obtain ⟨ln, hln⟩ : ∃ ln : Nat, line = (ln : Int) := ⟨line.toNat, by omega⟩
+        subst hln
+        have hpi : s.pageIndex idx = s.minPageIndex + (k : Int) := by
+          simp only [PStore.pageIndex, hL]; omega
+        have hli : s.lineIndex idx = ln := by
+          simp only [PStore.lineIndex, hL]; omega
+        have hslot : s.slot? (s.pageIndex idx) = some k := by
+          rw [hpi]; unfold PStore.slot?
+          rw [if_pos (by omega)]; congr 1; omega
+        obtain ⟨s', hadd, hI', hwt'⟩ := PStore.addAtPage_spec s hI idx k hslot (by rw [hsz]; decide) w hw
+        rw [hli] at hadd
+        have hexp : s.addAtPage k ln w = some (addAtE s k ln w) := by
+          unfold PStore.addAtPage addAtE
+          simp only []
+          rw [if_pos ⟨hk, by omega⟩]
+        rw [hexp] at hadd
+        have hs' := Option.some.inj hadd
+        have hcs' : content st1 = content s' := by
+          rw [hc1, hc]; exact (content_of_wt_add s s' hI hI' idx w hw hwt').symm
+        have hpg' : s'.pages.getD k #[] = (s.pages.getD k #[]).setIfInBounds ln ((s.pages.getD k #[]).getD ln 0 + w) := by
+          rw [← hs']; simp [addAtE, Array.getD, hk]
+        have hlnsz : ln < (s.pages.getD k #[]).size := by omega
+        have hstep : Gen.Paginated.BufferedPaginatedStore.DecodeAndMergeWith.loop4 32 numBins (k : Int)
+              (BitVec.ofInt 64 stride) (fuel + 1) b (s.pages.getD k #[]).toList (toGen s cap) (ln : Int)
+              (BitVec.ofInt 64 idx) i
+            = Gen.Paginated.BufferedPaginatedStore.DecodeAndMergeWith.loop4 32 numBins (k : Int)
+              (BitVec.ofInt 64 stride) fuel b1 (s'.pages.getD k #[]).toList (toGen s' cap) ((ln : Int) + stride)
+              (BitVec.ofInt 64 (idx + stride)) (i + 1#64) := by
+          rw [Gen.Paginated.BufferedPaginatedStore.DecodeAndMergeWith.loop4]
+          simp only [hcond, if_true, hF1, Res.bindL_ok, GoSem.ratOfF64, optL_some, hnil, Bool.false_eq_true,
+            if_false, cdc_idx_page (s.pages.getD k #[]) ln hlnsz, cdc_set_page (s.pages.getD k #[]) ln _ hlnsz,
+            toGen_pages, cdc_set_pages s k _ hk, cdc_toInt64 stride hstride, ← BitVec.ofInt_add, hpg']
+          rw [← hs']
+          rfl
+        rw [hstep, hm, ← hb1]
+        have hsz' : (s'.pages.getD k #[]).size = 32 := by rw [hpg', Array.size_setIfInBounds]; exact hsz
+        have hk' : k < s'.pages.size := by rw [← hs']; simp [addAtE, hk]
+        have hmin' : s'.minPageIndex = s.minPageIndex := by rw [← hs']; rfl
+        rcases ih fuel b1 s' k ((ln : Int) + stride) (idx + stride) (i + 1#64) st1
+          (DDS.GenStoreDecode.toNat_succ i numBins r hn) (by omega) hI' hIt1 hcs' hk' hsz'
+          (by rw [hmin', hidx]; omega)
+          (fun j hj => by
+            have := hrange (j + 1) (by omega)
+            rw [show idx + stride + (j : Int) * stride = idx + ((j + 1 : Nat) : Int) * stride by
+              rw [Int.natCast_add, Int.add_mul]; omega]
+            exact this)
+          (fun c hc' => hcnt c (List.mem_cons_of_mem _ hc')) with
+          h | ⟨r', s2, st2, idx2, b2, page2, line2, i2, h1, h2, h3, _, h5, h6, h7, h8, h9, h10⟩
+        · exact Or.inl h
+        · exact Or.inr ⟨r', s2, st2, idx2, b2, page2, line2, i2, h1, h2, by omega, fun _ => by omega, h5, h6, h7, h8,
+            h9, h10⟩
+    · right
+      refine ⟨r + 1, s, st, idx, b, (s.pages.getD k #[]).toList, line, i, ?_, hn, Nat.le_refl _, fun h => absurd ⟨h.1, h.2.1⟩ hline, rfl, hI,
+        hIt, hc, hrange, hcnt⟩
+      have hcond : ((decide ((0 : Int) ≤ line) && decide (line < 32)) && BitVec.ult i numBins) = false := by
+        by_cases h0 : 0 ≤ line
+        · have : ¬ line < 32 := fun h => hline ⟨h0, h⟩
+          simp [this]
+        · simp [h0]
+      simp only [Gen.Paginated.BufferedPaginatedStore.DecodeAndMergeWith.loop4, hcond, Bool.false_eq_true, if_false]
 
 end DDS.GenPag
